@@ -521,3 +521,361 @@ Proof.
     assert (HE : outputs (c_g C) ⊆ dom (c_g C)) by (intros y (i & Hi & _)%elem_of_outputs; apply elem_of_dom; eauto).
     exact (sens_shape_spec (c_g C) n (outputs (c_g C)) (c_g T) (cb_closed _ Hc) (cb_acyclic _ Hc) (cb_inputs_only _ Hc) Hn HE Hsh v Hv).
 Qed.
+
+
+(* ================================================================================================ *)
+(* C. sensitivity_transform produces sv_shape                                                         *)
+(* the loop `for s in startpoints: sen.add(s, "input", fanout=orig_s)` *)
+Definition otie1 (g : circuit) (s : string) := add_g g s Input [] [pre "orig" s] af_default.
+Lemma otie_loop_lookup S : ∀ g g', add_each otie1 g S = (g', Done) →
+  (∀ s, s ∈ S → s ∉ dom g) ∧ dom g ⊆ dom g' ∧
+  ∀ k, k ∈ dom g → g' !! k = upd_fi (λ F, list_to_set (filter (λ s, k = pre "orig" s) S) ∪ F) <$> g !! k.
+Proof.
+  induction S as [|s S IH]; intros g g' H.
+  - apply my_add_each_nil in H as ->. split; [by intros s ?%elem_of_nil|]. split; [done|]. intros k [i Hi]%elem_of_dom.
+    rewrite Hi. simpl. f_equal. symmetry. apply upd_fi_empty.
+  - apply my_add_each_cons in H as (g1 & n1 & Hstep & Hrest). unfold otie1 in Hstep.
+    assert (Hnfo : s ∉ [pre "orig" s]) by (intros E%elem_of_list_singleton; symmetry in E; by apply pre_ne in E).
+    destruct (add_g_lookup _ _ _ _ _ af_default _ _ eq_refl eq_refl eq_refl Hstep Hnfo) as (_ & Hs & Hls & Hk & _ & _).
+    pose proof (add_g_eff _ _ _ _ _ af_default _ _ eq_refl eq_refl eq_refl Hstep Hnfo) as [Hd1 _].
+    destruct (IH g1 g' Hrest) as (Hfr & Hd & Hlk).
+    split; [|split].
+    + intros s' [->|Hs']%elem_of_cons; [done|]. intros Hin. apply (Hfr s' Hs'). by apply Hd1.
+    + set_solver.
+    + intros k Hkd. assert (k ≠ s) by (intros ->; done).
+      rewrite (Hlk k (Hd1 k Hkd)), (Hk k) by done. apply elem_of_dom in Hkd as [i Hi]. rewrite Hi.
+      rewrite filter_cons.
+      destruct (decide (k ∈ [pre "orig" s])) as [Hin|Hin].
+      * apply elem_of_list_singleton in Hin. rewrite decide_True by done.
+        simpl. f_equal. rewrite upd_fi_comp. destruct i; unfold upd_fi; simpl; f_equal; set_solver.
+      * rewrite decide_False; [done|]. intros ->. apply Hin. set_solver.
+Qed.
+Lemma otie_src S x : list_to_set (filter (λ s, pre "orig" x = pre "orig" s) S) = (if decide (x ∈ S) then {[x]} else ∅ : gset string).
+Proof.
+  apply set_eq. intros y. rewrite elem_of_list_to_set, elem_of_list_filter.
+  destruct (decide (x ∈ S)) as [Hx|Hx].
+  - rewrite elem_of_singleton. split; [intros [E _]; by apply (inj (pre "orig")) in E|intros ->; done].
+  - split; [|set_solver]. intros [E Hy]. apply (inj (pre "orig")) in E. by subst.
+Qed.
+
+(* set_type on one existing node *)
+Lemma set_type_one g x t g' : set_type_g g [x] t = (g', Done) → ∃ i, g !! x = Some i ∧ g' = <[x := retype t i]> g.
+Proof.
+  unfold set_type_g. destruct (negb (bool_decide (t ∈ addable_types))); [done|]. cbn [foldl].
+  destruct (g !! x) as [i|]; [|done]. intros [= <-]. eauto.
+Qed.
+
+(* the inner loop of one inverted copy: `for s1 in startpoints: connect / set_type + connect` *)
+Definition inner_step (s0 : string) (st : circuit * outcome) (s1 : string) : circuit * outcome :=
+  match st with
+  | (g, Done) =>
+      if bool_decide (s0 ≠ s1) then connect_g g [s1] [pre (pre "inv" s0) s1]
+      else match set_type_g g [pre (pre "inv" s0) s1] Not with
+           | (g', Done) => connect_g g' [s0] [pre (pre "inv" s0) s1]
+           | r => r end
+  | _ => st end.
+Definition inner_fn (s0 s1 : string) (i : ninfo) : ninfo :=
+  if decide (s0 = s1) then upd_fi (λ F, {[s0]} ∪ F) (retype Not i) else upd_fi (λ F, {[s1]} ∪ F) i.
+Lemma inner_fail s0 g e l : foldl (inner_step s0) (g, Fail e) l = (g, Fail e).
+Proof. induction l; simpl; done. Qed.
+Lemma inner_loop s0 l : ∀ g g', NoDup l → foldl (inner_step s0) (g, Done) l = (g', Done) →
+  (∀ s1, s1 ∈ l → g' !! pre (pre "inv" s0) s1 = inner_fn s0 s1 <$> g !! pre (pre "inv" s0) s1) ∧
+  (∀ k, (∀ s1, s1 ∈ l → k ≠ pre (pre "inv" s0) s1) → g' !! k = g !! k).
+Proof.
+  induction l as [|s1 l IH]; intros g g' Hnd H.
+  - simpl in H. injection H as <-. split; [by intros s ?%elem_of_nil|done].
+  - apply NoDup_cons in Hnd as [Hnin Hnd]. simpl in H.
+    set (x := pre (pre "inv" s0) s1) in *.
+    assert (∃ g1, foldl (inner_step s0) (g1, Done) l = (g', Done) ∧ ∀ k, g1 !! k = if decide (k = x) then inner_fn s0 s1 <$> g !! k else g !! k)
+      as (g1 & Hrest & Hg1).
+    { case_bool_decide as Hs.
+      - destruct (connect_g g [s1] [x]) as [g1 [|e]] eqn:Hc; [|by rewrite inner_fail in H].
+        exists g1. split; [done|]. destruct (connect_from _ _ _ _ Hc) as [L _]. intros k. rewrite L.
+        destruct (decide (k = x)) as [->|Hk].
+        + rewrite decide_True by set_solver. destruct (g !! x); [|done]. simpl. unfold inner_fn. by rewrite decide_False.
+        + rewrite decide_False; [done|]. by intros ?%elem_of_list_singleton.
+      - subst s1.
+        destruct (set_type_g g [x] Not) as [g0 [|e]] eqn:Hst; [|by rewrite inner_fail in H].
+        destruct (connect_g g0 [s0] [x]) as [g1 [|e]] eqn:Hc; [|by rewrite inner_fail in H].
+        exists g1. split; [done|]. destruct (set_type_one _ _ _ _ Hst) as (i & Hi & ->).
+        destruct (connect_from _ _ _ _ Hc) as [L _]. intros k. rewrite L.
+        destruct (decide (k = x)) as [->|Hk].
+        + rewrite decide_True by set_solver. rewrite lookup_insert, Hi. simpl. unfold inner_fn. by rewrite decide_True.
+        + rewrite decide_False by (by intros ?%elem_of_list_singleton). by rewrite lookup_insert_ne. }
+    destruct (IH g1 g' Hnd Hrest) as [IH1 IH2]. split.
+    + intros s [->|Hs]%elem_of_cons.
+      * rewrite IH2; [by rewrite Hg1, decide_True|]. intros s Hs E. apply (inj (pre (pre "inv" s0))) in E. by subst.
+      * rewrite (IH1 s Hs), Hg1. rewrite decide_False; [done|]. intros E. apply (inj (pre (pre "inv" s0))) in E. by subst.
+    + intros k Hk. rewrite IH2 by (intros s Hs; apply Hk; by right). rewrite Hg1, decide_False; [done|]. apply Hk. by left.
+Qed.
+
+
+Definition pcin (i : nat) : string := "pc_in_" ++ pretty i.
+Lemma pcin_inj i i' : pcin i = pcin i' → i = i'.
+Proof. unfold pcin. intros H. apply (inj pretty). by simplify_eq/=. Qed.
+
+(* one inverted copy *)
+Lemma inv_copy_inv Sc SUB n ord i s0 S2 : inv_copy Sc SUB n ord i s0 = (S2, Done) →
+  ∃ S' g g' n', add_subcircuit Sc SUB (pre "inv" s0) [] = (S', Done) ∧
+    foldl (inner_step s0) (c_g S', Done) ord = (g, Done) ∧
+    add_g g (pre "dif_out" s0) Xor [pre "orig" n; pre (pre "inv" s0) n] [pcin i] af_out1 = (g', Done, n') ∧
+    S2 = with_g S' g'.
+Proof.
+  unfold inv_copy. destruct (add_subcircuit Sc SUB (pre "inv" s0) []) as [S' [|e]] eqn:H1; [|done].
+  change (foldl _ (c_g S', Done) ord) with (foldl (inner_step s0) (c_g S', Done) ord).
+  destruct (foldl (inner_step s0) (c_g S', Done) ord) as [g [|e]] eqn:H2; [|done].
+  fold (pcin i). destruct (add_g g _ Xor _ _ af_out1) as [[g' o] n'] eqn:H3. intros [= <- ->]. by exists S', g, g', n'.
+Qed.
+
+Definition inv_rec (s0 : string) (ord : list string) (x : string) (j : ninfo) : ninfo :=
+  let r := ren_info (pre (pre "inv" s0)) (strip_info j) in if decide (x ∈ ord) then inner_fn s0 x r else r.
+
+Lemma inv_copy_spec Sc SUB n ord i s0 S2 :
+  inv_copy Sc SUB n ord i s0 = (S2, Done) → NoDup ord → (∀ s1, s1 ∈ ord → s1 ∈ dom (c_g SUB)) → pcin i ∈ dom (c_g Sc) →
+  eff (c_g Sc) (c_g S2) {[pcin i]} ∧
+  (∀ x j, c_g SUB !! x = Some j → c_g S2 !! pre (pre "inv" s0) x = Some (inv_rec s0 ord x j)) ∧
+  c_g S2 !! pre "dif_out" s0 = Some (mk_node Xor true {[pre "orig" n; pre (pre "inv" s0) n]}) ∧
+  c_g S2 !! pcin i = upd_fi (λ F, {[pre "dif_out" s0]} ∪ F) <$> c_g Sc !! pcin i.
+Proof.
+  intros H Hnd Hord Hpi. destruct (inv_copy_inv _ _ _ _ _ _ _ H) as (S' & g & g' & n' & H1 & H2 & H3 & ->).
+  change (c_g (with_g S' g')) with g'.
+  destruct (add_sub_nil _ _ _ _ H1) as (HgS' & _ & _ & Hfresh).
+  pose proof (add_sub_eff _ _ _ _ H1) as Heff1.
+  destruct (inner_loop s0 ord _ _ Hnd H2) as [In1 In2].
+  assert (Hnfo : pre "dif_out" s0 ∉ [pcin i]) by (intros E%elem_of_list_singleton; unfold pre, pcin in E; simplify_eq/=).
+  destruct (add_g_lookup _ _ _ _ _ af_out1 _ _ eq_refl eq_refl eq_refl H3 Hnfo) as (_ & Hdfresh & Hdnew & Hk & Hfo & _).
+  (* existing keys are not touched by the inner loop *)
+  assert (Hold : ∀ k, k ∈ dom (c_g Sc) → g !! k = c_g Sc !! k).
+  { intros k Hk'. rewrite In2.
+    - destruct Heff1 as [_ He]. apply He; [done|set_solver].
+    - intros s1 Hs1 ->. by apply (Hfresh s1 (Hord s1 Hs1)). }
+  split; [|split; [|split]].
+  - split.
+    + intros k Hk'. apply elem_of_dom. destruct (decide (k = pre "dif_out" s0)) as [->|Hne]; [by rewrite Hdnew|].
+      rewrite (Hk k Hne). apply elem_of_dom in Hk' as [i0 Hi0]. rewrite Hold by (apply elem_of_dom; eauto). rewrite Hi0.
+      case_decide; simpl; eauto.
+    + intros k Hk' Hnot. assert (k ≠ pre "dif_out" s0).
+      { intros ->. apply Hdfresh. apply elem_of_dom. rewrite Hold by done. by apply elem_of_dom. }
+      rewrite (Hk k) by done. rewrite decide_False by set_solver. by apply Hold.
+  - intros x j Hx. rewrite (Hk _) by (unfold pre; intros [=]).
+    rewrite decide_False by (intros E%elem_of_list_singleton; unfold pre, pcin in E; simplify_eq/=).
+    unfold inv_rec. destruct (decide (x ∈ ord)) as [Hin|Hin].
+    + rewrite (In1 x Hin). by rewrite (add_sub_lookup_new _ _ _ _ x j H1 Hx).
+    + rewrite In2; [by apply (add_sub_lookup_new _ _ _ _ x j H1 Hx)|].
+      intros s1 Hs1 E. apply (inj (pre (pre "inv" s0))) in E. by subst.
+  - rewrite Hdnew. f_equal. unfold mk_node. f_equal. set_solver.
+  - rewrite (Hk _) by (unfold pre, pcin; intros [=]). rewrite decide_True by set_solver. by rewrite Hold.
+Qed.
+
+(* the loop over enumerate(startpoints) *)
+Definition outer_step (SUB : Circuit) (n : string) (ord : list string) (st : Circuit * outcome) (p : nat * string) : Circuit * outcome :=
+  match st with (Sc, Done) => inv_copy Sc SUB n ord p.1 p.2 | _ => st end.
+Lemma outer_fail SUB n ord Sc e l : foldl (outer_step SUB n ord) (Sc, Fail e) l = (Sc, Fail e).
+Proof. induction l; simpl; done. Qed.
+Lemma outer_loop SUB n ord l : NoDup ord → (∀ s1, s1 ∈ ord → s1 ∈ dom (c_g SUB)) →
+  ∀ Sc S', foldl (outer_step SUB n ord) (Sc, Done) l = (S', Done) → NoDup (fst <$> l) →
+  (∀ p, p ∈ l → pcin p.1 ∈ dom (c_g Sc)) →
+  eff (c_g Sc) (c_g S') (list_to_set ((λ p : nat * string, pcin p.1) <$> l)) ∧
+  ∀ i s0, (i, s0) ∈ l →
+    (∀ x j, c_g SUB !! x = Some j → c_g S' !! pre (pre "inv" s0) x = Some (inv_rec s0 ord x j)) ∧
+    c_g S' !! pre "dif_out" s0 = Some (mk_node Xor true {[pre "orig" n; pre (pre "inv" s0) n]}) ∧
+    c_g S' !! pcin i = upd_fi (λ F, {[pre "dif_out" s0]} ∪ F) <$> c_g Sc !! pcin i.
+Proof.
+  intros Hnd Hord. induction l as [|[i s0] l IH]; intros Sc S' H Hndl Hpc.
+  - simpl in H. injection H as <-. split; [apply eff_refl|]. by intros i s0 ?%elem_of_nil.
+  - simpl in H. destruct (inv_copy Sc SUB n ord i s0) as [S1 [|e]] eqn:H1; [|by rewrite outer_fail in H].
+    rewrite fmap_cons in Hndl. apply NoDup_cons in Hndl as [Hi Hndl]. simpl in Hi.
+    destruct (inv_copy_spec _ _ _ _ _ _ _ H1 Hnd Hord (Hpc (i, s0) ltac:(by left))) as (E1 & F1 & D1 & P1).
+    destruct (IH S1 S' H Hndl) as [E2 F2].
+    { intros p Hp. eapply eff_dom; [exact E1|]. apply Hpc. by right. }
+    set (A2 := (list_to_set ((λ p : nat * string, pcin p.1) <$> l) : gset string)) in *.
+    assert (HA2 : ∀ k, k ∈ A2 → ∃ i', i' ∈ (fst <$> l) ∧ k = pcin i').
+    { intros k (p & -> & Hp)%elem_of_list_to_set%elem_of_list_fmap. exists p.1. split; [|done]. apply elem_of_list_fmap. eauto. }
+    split.
+    + rewrite fmap_cons, list_to_set_cons. eapply eff_trans; eauto.
+    + intros i' s0' [[= -> ->]|Hin]%elem_of_cons.
+      * split; [|split].
+        -- intros x j Hx. eapply eff_lookup; [exact E2|by apply F1|].
+           intros (i' & _ & E)%HA2. unfold pre, pcin in E. simplify_eq/=.
+        -- eapply eff_lookup; [exact E2|exact D1|]. intros (i' & _ & E)%HA2. unfold pre, pcin in E. simplify_eq/=.
+        -- destruct E2 as [_ He2]. rewrite He2; [done| |].
+           ++ apply elem_of_dom. rewrite P1. pose proof (Hpc (i, s0) ltac:(by left)) as [j Hj]%elem_of_dom. simpl in Hj. rewrite Hj. simpl. eauto.
+           ++ intros (i' & Hi' & E)%HA2. apply pcin_inj in E. by subst.
+      * destruct (F2 i' s0' Hin) as (Fa & Fb & Fc). split; [done|]. split; [done|]. rewrite Fc. f_equal.
+        destruct E1 as [_ He1]. apply He1; [apply (Hpc (i', s0')); by right|].
+        intros E%elem_of_singleton%pcin_inj. subst. apply Hi. apply elem_of_list_fmap. by exists (i, s0').
+Qed.
+
+(* the sen_out loop *)
+Definition sen1 (g : circuit) (o : nat) := add_g g ("sen_out_" ++ pretty o) Buf ["pc_out_" ++ pretty o] [] af_out1.
+Lemma sen_loop l : ∀ g g', add_each sen1 g l = (g', Done) →
+  eff g g' ∅ ∧ ∀ o, o ∈ l → g' !! ("sen_out_" ++ pretty o) = Some (mk_node Buf true (list_to_set ["pc_out_" ++ pretty o])).
+Proof.
+  induction l as [|o l IH]; intros g g' H.
+  - apply my_add_each_nil in H as ->. split; [apply eff_refl|]. by intros o ?%elem_of_nil.
+  - apply my_add_each_cons in H as (g1 & n1 & Hstep & Hrest). unfold sen1 in Hstep.
+    assert (Hnfo : "sen_out_" ++ pretty o ∉ ([] : list string)) by (by intros ?%elem_of_nil).
+    destruct (add_g_lookup _ _ _ _ _ af_out1 _ _ eq_refl eq_refl eq_refl Hstep Hnfo) as (_ & _ & Hnew & _).
+    pose proof (add_g_eff _ _ _ _ _ af_out1 _ _ eq_refl eq_refl eq_refl Hstep Hnfo) as E1. rewrite list_to_set_nil in E1.
+    destruct (IH g1 g' Hrest) as [E2 F2]. split.
+    + eapply eff_weaken; [|eapply eff_trans; eauto]. set_solver.
+    + intros o' [->|Ho']%elem_of_cons; [|by apply F2]. eapply eff_lookup; [exact E2|exact Hnew|set_solver].
+Qed.
+
+
+(* interface of the popcount circuit the transform relies on: in_0 .. in_{m-1} are primary inputs *)
+Definition pc_inputs (PC : circuit) (m : nat) : Prop :=
+  ∀ i, i < m → ∃ j, PC !! ("in_" ++ pretty i) = Some j ∧ n_ty j = Input ∧ n_fi j = ∅.
+
+Definition sv_sub (c : circuit) (n : string) : Circuit :=
+  {| c_name := "circuit"; c_g := induced c (tfi c [n] ∪ {[n]}); c_bbs := ∅ |}.
+
+Lemma sv_transform_inv C n ord PC T : sensitivity_transform C n ord PC = Ok T →
+  c_bbs C = ∅ ∧ n ∈ dom (c_g C) ∧ ord ≡ₚ elements (cone_startpoints (c_g C) n) ∧
+  ∃ S1 g2 S3 S4 W g5,
+    add_subcircuit {| c_name := "circuit"; c_g := ∅; c_bbs := ∅ |} (sv_sub (c_g C) n) "orig" [] = (S1, Done) ∧
+    add_each otie1 (c_g S1) ord = (g2, Done) ∧
+    add_subcircuit (with_g S1 g2) PC "pc" [] = (S3, Done) ∧
+    foldl (outer_step (sv_sub (c_g C) n) n ord) (S3, Done) (imap (λ i s, (i, s)) ord) = (S4, Done) ∧
+    clog2 (length ord + 1) = Ok W ∧
+    add_each sen1 (c_g S4) (seq 0 W) = (g5, Done) ∧ T = with_g S4 g5.
+Proof.
+  unfold sensitivity_transform. case_bool_decide as Hbb; cbn [negb]; [|done].
+  case_bool_decide as Hn; cbn [negb]; [|done]. case_bool_decide as Hsp; [done|].
+  case_bool_decide as Hperm; cbn [negb]; [|done].
+  fold (sv_sub (c_g C) n). unfold lift.
+  destruct (add_subcircuit _ (sv_sub (c_g C) n) "orig" []) as [S1 [|e1]] eqn:H1; [|done].
+  fold otie1. destruct (add_each otie1 (c_g S1) ord) as [g2 [|e2]] eqn:H2; [|done].
+  destruct (add_subcircuit (with_g S1 g2) PC "pc" []) as [S3 [|e3]] eqn:H3; [|done].
+  change (foldl _ (S3, Done) (imap (λ i s, (i, s)) ord)) with (foldl (outer_step (sv_sub (c_g C) n) n ord) (S3, Done) (imap (λ i s, (i, s)) ord)).
+  destruct (foldl (outer_step (sv_sub (c_g C) n) n ord) (S3, Done) _) as [S4 [|e4]] eqn:H4; [|done].
+  destruct (clog2 (length ord + 1)) as [W| | |] eqn:HW; try done. simpl.
+  fold sen1. destruct (add_each sen1 (c_g S4) (seq 0 W)) as [g5 [|e5]] eqn:H5; [|done].
+  intros [= <-]. split; [done|]. split; [done|]. split; [done|]. by exists S1, g2, S3, S4, W, g5.
+Qed.
+
+Lemma fst_imap_pairs (l : list string) : fst <$> imap (λ i s, (i, s)) l = seq 0 (length l).
+Proof.
+  assert (∀ k, fst <$> imap (λ i s, (k + i, s)) l = seq k (length l)) as H.
+  { induction l as [|s l IH]; intros k; [done|]. rewrite imap_cons. cbn [fmap list_fmap length seq]. f_equal; [simpl; lia|].
+    rewrite <- (IH (S k)). f_equal. apply imap_ext. intros i x _. simpl. f_equal. lia. }
+  apply (H 0).
+Qed.
+
+Theorem sv_model_shape SUB n ord PC S1 g2 S3 S4 W g5 :
+  comb (c_g SUB) → NoDup ord → inputs (c_g SUB) = list_to_set ord → pc_inputs (c_g PC) (length ord) →
+  add_subcircuit {| c_name := "circuit"; c_g := ∅; c_bbs := ∅ |} SUB "orig" [] = (S1, Done) →
+  add_each otie1 (c_g S1) ord = (g2, Done) →
+  add_subcircuit (with_g S1 g2) PC "pc" [] = (S3, Done) →
+  foldl (outer_step SUB n ord) (S3, Done) (imap (λ i s, (i, s)) ord) = (S4, Done) →
+  add_each sen1 (c_g S4) (seq 0 W) = (g5, Done) →
+  sv_shape (c_g SUB) n ord (c_g PC) W g5.
+Proof.
+  intros Hc Hnd Hin Hpc H1 H2 H3 H4 H5. set (c := c_g SUB) in *.
+  assert (Hord : ∀ s, s ∈ ord ↔ s ∈ inputs c) by (intros s; rewrite Hin; by rewrite elem_of_list_to_set).
+  assert (Hordd : ∀ s, s ∈ ord → s ∈ dom c).
+  { intros s (j & Hj & _)%Hord%elem_of_inputs. apply elem_of_dom. eauto. }
+  assert (NF : ∀ x j, c !! x = Some j → is_free j = false → x ∉ ord).
+  { intros x j Hx Hf (j' & Hj' & Ht)%Hord%elem_of_inputs. rewrite Hx in Hj'. injection Hj' as <-. by apply nonfree_not_input in Hf. }
+  (* orig copy and its ties *)
+  assert (O1 : ∀ x j, c !! x = Some j → c_g S1 !! pre "orig" x = Some (ren_info (pre "orig") (strip_info j))).
+  { intros x j Hx. by apply (add_sub_lookup_new _ _ _ _ x j H1). }
+  destruct (otie_loop_lookup _ _ _ H2) as (_ & Hd12 & Ht).
+  assert (O2 : ∀ x j, c !! x = Some j →
+     g2 !! pre "orig" x = Some (upd_fi (λ F, (if decide (x ∈ ord) then {[x]} else ∅) ∪ F) (ren_info (pre "orig") (strip_info j)))).
+  { intros x j Hx. rewrite Ht by (apply elem_of_dom; rewrite (O1 x j Hx); eauto). by rewrite (O1 x j Hx), otie_src. }
+  (* popcount copy *)
+  pose proof (add_sub_eff _ _ _ _ H3) as E23. change (c_g (with_g S1 g2)) with g2 in E23.
+  assert (P3 : ∀ x j, c_g PC !! x = Some j → c_g S3 !! pre "pc" x = Some (ren_info (pre "pc") (strip_info j))).
+  { intros x j Hx. by apply (add_sub_lookup_new _ _ _ _ x j H3). }
+  (* the inverted copies *)
+  assert (Hl : ∀ i s0, (i, s0) ∈ imap (λ i s, (i, s)) ord ↔ ord !! i = Some s0).
+  { intros i s0. rewrite elem_of_lookup_imap. split; [intros (i' & s' & [= -> ->] & H); done|intros H; eauto]. }
+  assert (Hpin : ∀ i, i < length ord → ∃ j, c_g PC !! ("in_" ++ pretty i) = Some j ∧ n_ty j = Input ∧ n_fi j = ∅ ∧
+                    c_g S3 !! pcin i = Some (ren_info (pre "pc") (strip_info j))).
+  { intros i Hi. destruct (Hpc i Hi) as (j & Hj & Hty & Hfi). exists j. repeat split; try done. exact (P3 _ j Hj). }
+  destruct (outer_loop SUB n ord _ Hnd Hordd S3 S4 H4) as [E34 F4].
+  { rewrite fst_imap_pairs. apply NoDup_seq. }
+  { intros [i s0] Hp%Hl. simpl. apply lookup_lt_Some in Hp. destruct (Hpin i Hp) as (j & _ & _ & _ & Hj). apply elem_of_dom. eauto. }
+  set (A := (list_to_set ((λ p : nat * string, pcin p.1) <$> imap (λ i s, (i, s)) ord) : gset string)) in *.
+  assert (HA : ∀ k, k ∈ A → ∃ i, i < length ord ∧ k = pcin i).
+  { intros k ([i s0] & -> & Hp%Hl)%elem_of_list_to_set%elem_of_list_fmap. exists i. split; [by apply lookup_lt_Some in Hp|done]. }
+  destruct (sen_loop _ _ _ H5) as [E45 F5].
+  assert (E25 : eff g2 g5 A).
+  { eapply eff_weaken; [|eapply eff_trans; [exact E23|eapply eff_trans; [exact E34|exact E45]]]. set_solver. }
+  assert (E35 : eff (c_g S3) g5 A).
+  { eapply eff_weaken; [|eapply eff_trans; [exact E34|exact E45]]. set_solver. }
+  assert (Hinv : ∀ s0 x j, s0 ∈ ord → c !! x = Some j → g5 !! pre (pre "inv" s0) x = Some (inv_rec s0 ord x j)).
+  { intros s0 x j (i & Hi)%elem_of_list_lookup Hx. destruct (F4 i s0 (proj2 (Hl i s0) Hi)) as (Fa & _ & _).
+    eapply eff_lookup; [exact E45|by apply Fa|set_solver]. }
+  split.
+  - intros x j Hx Hf. eexists. split; [eapply eff_lookup; [exact E25|exact (O2 x j Hx)|]|].
+    + intros (i & _ & E)%HA. unfold pre, pcin in E. simplify_eq/=.
+    + rewrite decide_False by (by eapply NF). rewrite upd_fi_empty. by apply strip_copy_nonfree.
+  - intros s Hs. pose proof Hs as (j & Hj & Hty)%elem_of_inputs. eexists. split; [eapply eff_lookup; [exact E25|exact (O2 s j Hj)|]|].
+    + intros (i & _ & E)%HA. unfold pre, pcin in E. simplify_eq/=.
+    + rewrite decide_True by (by apply Hord). cbn [upd_fi n_ty n_fi ren_info strip_info]. rewrite Hty, bool_decide_eq_true_2 by done.
+      split; [done|]. rewrite (cb_input_fi c Hc s j Hj Hty), set_map_empty. set_solver.
+  - intros s0 x j Hs0 Hx Hf. eexists. split; [by apply Hinv|]. unfold inv_rec. rewrite decide_False by (by eapply NF).
+    by apply strip_copy_nonfree.
+  - intros s0 s Hs0 Hs Hne. pose proof Hs as (j & Hj & Hty)%elem_of_inputs. eexists. split; [by apply Hinv|].
+    unfold inv_rec. rewrite decide_True by (by apply Hord). unfold inner_fn. rewrite decide_False by done.
+    cbn [upd_fi n_ty n_fi ren_info strip_info]. rewrite Hty, bool_decide_eq_true_2 by done. split; [done|].
+    rewrite (cb_input_fi c Hc s j Hj Hty), set_map_empty. set_solver.
+  - intros s0 Hs0. pose proof (proj1 (Hord s0) Hs0) as (j & Hj & Hty)%elem_of_inputs. eexists. split; [by apply Hinv|].
+    unfold inv_rec. rewrite decide_True by done. unfold inner_fn. rewrite decide_True by done.
+    cbn [upd_fi retype n_ty n_fi ren_info strip_info]. split; [done|].
+    rewrite (cb_input_fi c Hc s0 j Hj Hty), set_map_empty. set_solver.
+  - intros s0 (i & Hi)%elem_of_list_lookup. destruct (F4 i s0 (proj2 (Hl i s0) Hi)) as (_ & Fb & _).
+    eexists. split; [eapply eff_lookup; [exact E45|exact Fb|set_solver]|done].
+  - intros x j Hx Hf. eexists. split; [eapply eff_lookup; [exact E35|exact (P3 x j Hx)|]|by apply strip_copy_nonfree].
+    intros (i & Hi & E)%HA. change (pcin i) with (pre "pc" ("in_" ++ pretty i)) in E. apply (inj (pre "pc")) in E. subst x.
+    destruct (Hpc i Hi) as (j' & Hj' & Hty & _). rewrite Hx in Hj'. injection Hj' as <-. by apply nonfree_not_input in Hf.
+  - intros i s0 Hi. destruct (F4 i s0 (proj2 (Hl i s0) Hi)) as (_ & _ & Fc).
+    destruct (Hpin i (lookup_lt_Some _ _ _ Hi)) as (j & _ & Hty & Hfi & Hj3). rewrite Hj3 in Fc. simpl in Fc.
+    eexists. split; [eapply eff_lookup; [exact E45|exact Fc|set_solver]|].
+    cbn [upd_fi n_ty n_fi ren_info strip_info]. rewrite Hty, bool_decide_eq_true_2 by done. split; [done|].
+    rewrite Hfi, set_map_empty. set_solver.
+  - intros o Ho. eexists. split; [apply F5; apply elem_of_seq; lia|]. cbn [mk_node n_ty n_fi]. split; [done|]. set_solver.
+Qed.
+
+
+Lemma induced_dom c K y : y ∈ dom (induced c K) ↔ y ∈ K ∧ y ∈ dom c.
+Proof.
+  rewrite !elem_of_dom. split.
+  - intros [j (i & Hi & HK & _)%induced_lookup]. eauto.
+  - intros [HK [i Hi]]. exists (upd_fi (λ fi, fi ∩ K) i). apply induced_lookup. eauto.
+Qed.
+Lemma induced_inputs c K : inputs (induced c K) = inputs c ∩ K.
+Proof.
+  apply set_eq. intros y. rewrite elem_of_intersection, !elem_of_inputs. split.
+  - intros (j & (i & Hi & HK & ->)%induced_lookup & Ht). split; [|done]. exists i. done.
+  - intros [(i & Hi & Ht) HK]. exists (upd_fi (λ fi, fi ∩ K) i). split; [apply induced_lookup; eauto|done].
+Qed.
+
+(* ---- sensitivity_transform_spec: full, for the model function ---- *)
+Theorem sensitivity_transform_model_spec C n ord PC T W :
+  comb (c_g C) → pc_inputs (c_g PC) (length ord) →
+  sensitivity_transform C n ord PC = Ok T → clog2 (length ord + 1) = Ok W →
+  ∀ v, consistent (c_g T) v →
+    (∀ s, s ∈ ord → v ("dif_out_" ++ s) = true ↔ flips (c_g C) n s v) ∧
+    (popcount_correct (c_g PC) (length ord) W → sen_bits v W = take_bits W (count (c_g C) n ord v)).
+Proof.
+  intros Hc Hpc HT HW v Hv.
+  destruct (sv_transform_inv _ _ _ _ _ HT) as (Hbb & Hn & Hperm & S1 & g2 & S3 & S4 & W' & g5 & H1 & H2 & H3 & H4 & HW' & H5 & ->).
+  rewrite HW in HW'. injection HW' as <-.
+  set (c := c_g C) in *. set (K := tfi c [n] ∪ {[n]}) in *.
+  pose proof (cb_closed _ Hc) as Hcl.
+  assert (HK : ∀ y i f, c !! y = Some i → y ∈ K → f ∈ n_fi i → f ∈ K).
+  { assert (K = list_to_set [n] ∪ tfi c [n]) as -> by (unfold K; apply set_eq; set_solver). by apply cone_fanin_closed. }
+  assert (Hsub : sub_of (induced c K) c) by (by apply induced_sub_of).
+  assert (HcS : comb (induced c K)) by (by eapply sub_comb).
+  assert (Hnd : NoDup ord) by (rewrite Hperm; apply NoDup_elements).
+  assert (Hin : inputs (induced c K) = list_to_set ord).
+  { rewrite induced_inputs. apply set_eq. intros y. rewrite elem_of_list_to_set, Hperm, elem_of_elements.
+    unfold cone_startpoints. rewrite (comb_startpoints c Hc). unfold K. set_solver. }
+  assert (HnS : n ∈ dom (induced c K)) by (apply induced_dom; split; [unfold K; set_solver|done]).
+  pose proof (sv_model_shape (sv_sub c n) n ord PC S1 g2 S3 S4 W g5 HcS Hnd Hin Hpc H1 H2 H3 H4 H5) as Hsh.
+  change (c_g (sv_sub c n)) with (induced c K) in Hsh. change (c_g (with_g S4 g5)) with g5 in Hv.
+  exact (sensitivity_shape_spec c (induced c K) n ord (c_g PC) W g5 Hcl (cb_acyclic _ Hc) (cb_inputs_only _ Hc) Hsub HnS Hsh v Hv).
+Qed.
